@@ -3,10 +3,12 @@ use crate::core::{Acc, Ctx};
 use serde_json::Value;
 
 pub mod c01;
+pub mod c06;
 
 pub fn run(ctx: &Ctx, acc: &mut Acc) -> bool {
     match ctx.prop.as_str() {
         "C01" => c01::run(ctx, acc),
+        "C06" => c06::run(ctx, acc),
         _ => return false,
     }
     true
@@ -15,7 +17,7 @@ pub fn run(ctx: &Ctx, acc: &mut Acc) -> bool {
 /// Build profiles a property is explored under.
 pub fn profiles(id: &str) -> Vec<String> {
     let both = ["C03", "C04", "C12", "C15"];
-    let known = ["C01"];
+    let known = ["C01", "C06"];
     if both.contains(&id) {
         vec!["opt".into(), "chk".into()]
     } else if known.contains(&id) {
@@ -33,6 +35,7 @@ pub fn worker_death_is_violation(id: &str) -> bool {
 pub fn replay(id: &str, v: &Value) -> Option<(bool, String)> {
     match id {
         "C01" => c01::replay(v),
+        "C06" => c06::replay(v),
         _ => None,
     }
 }
@@ -40,12 +43,14 @@ pub fn replay(id: &str, v: &Value) -> Option<(bool, String)> {
 pub fn rule(id: &str) -> &'static str {
     match id {
         "C01" => c01::RULE,
+        "C06" => c06::RULE,
         _ => "",
     }
 }
 pub fn bounds(id: &str, quick: bool) -> Value {
     match id {
         "C01" => c01::bounds(quick),
+        "C06" => c06::bounds(quick),
         _ => Value::Null,
     }
 }
@@ -56,6 +61,7 @@ pub fn assumptions(id: &str) -> Vec<&'static str> {
     ];
     v.extend(match id {
         "C01" => c01::ASSUMPTIONS,
+        "C06" => c06::ASSUMPTIONS,
         _ => &[],
     });
     v
